@@ -262,6 +262,21 @@ impl Sess {
         let block = std::sync::Arc::clone(&self.tg.rc.get(x).block);
         let old = self.n_tip();
         let res = self.n.process(&block);
+        if let Err(e) = &res {
+            let msg = e.to_string();
+            if msg.contains("InvalidChainRoot") {
+                // the block commits to the root of its own ancestors (checked against the harness's
+                // MMR by the chain engine and accepted by the builder node): the node's MMR does
+                // not describe the chain it is on
+                r.violation(
+                    "chain_root.valid_commitment_refused_after_reorg",
+                    format!("node under test refused block {}#{} with {msg} although the builder node accepted it: its stored MMR no longer matches the chain it is on", vnode::model::hx(x), self.tg.rc.get(x).number),
+                    serde_json::json!({"block": vbase::hex(x), "number": self.tg.rc.get(x).number, "error": msg}),
+                );
+                self.dead = true;
+                return false;
+            }
+        }
         if !matches!(res, Ok(true)) {
             r.inconclusive(&format!(
                 "harness: node under test answered {:?} to a block accepted by the builder node",
